@@ -51,6 +51,13 @@ def variant_const_table(v, ret_local=0):
     return table
 
 
+def _fn_path(blk):
+    tm = blk["term"]
+    if tm["k"] == "call" and tm["func"].get("k") == "const" and "fn" in tm["func"]:
+        return tm["func"]["fn"].get("path")
+    return None
+
+
 def find_helpers(crate, main):
     """The private helpers are found by role, not by name: `order` is the function handed to the sort,
     `rec` the local function that receives the list (its first parameter is a slice of ValueKind and it
@@ -63,15 +70,33 @@ def find_helpers(crate, main):
         if c.fn is None:
             continue
         if c.name in ("sort_by_key", "sort_by_cached_key", "sort_unstable_by_key") and len(v.blocks[bb]["term"]["args"]) > 1:
-            key = v.origin(v.blocks[bb]["term"]["args"][1])
+            key = strip_refs(v.origin(v.blocks[bb]["term"]["args"][1]))
             if key[0] == "fnconst":
                 order = body(crate, key[1]) or order
+            elif key[0] == "agg" and key[1] == "closure":
+                # `|k| order(k)`: a closure that only forwards its argument to the rank function
+                cb = body(crate, key[3])
+                if cb is not None:
+                    cv = View(cb)
+                    cc = [(x, c2) for x, c2 in cv.calls() if c2.fn is not None]
+                    if len(cc) == 1 and cv.blocks[cc[0][0]]["term"]["dest"]["l"] == 0 and body(crate, cc[0][1].path) is not None:
+                        order = body(crate, cc[0][1].path)
         if c.krate == "deserr" and body(crate, c.path) is not None:
             b = body(crate, c.path)
             bv = View(b)
             if any(c2.fn is not None and c2.path == c.path for _, c2 in bv.calls()):
                 rec = b
     if rec is not None:
+        # a step's pattern match may live in a helper of its own (`next_part(kinds) -> (phrase, rest)`): expand it
+        import inline
+        idx = {b.path: b for b in crate.bodies}
+
+        def takes_kind_slice(callee, _rec=rec):
+            return callee.path != _rec.path and callee.kind == "Fn" and callee.arg_count >= 1 and "[value::ValueKind]" in callee.ltys(1) and \
+                not any(_fn_path(blk) == callee.path for blk in callee.blocks)
+        nb, _used = inline.inline_body(crate, rec, idx, 0, takes_kind_slice)
+        if nb is not None:
+            rec = nb
         rv = View(rec)
         for bb, c in rv.calls():
             if c.fn is not None and c.krate == "deserr" and c.path != rec.path and body(crate, c.path) is not None:
@@ -88,29 +113,57 @@ def run(ctx):
     crate = ctx.libcrate("deserr")
     main = body(crate, BASE)
     order, single, rec = find_helpers(crate, main)
+    if main is not None:
+        mv = View(main)
+        names_ = [c.name for _, c in mv.calls() if c.fn is not None]
+        local_ = [c for _, c in mv.calls() if c.fn is not None and c.krate == "deserr"]
+        has_sort = any(n and n.startswith("sort") for n in names_)
+        has_dedup = any(n and n.startswith("dedup") for n in names_)
+        other_canon = any(n in ("collect", "from_iter", "extend", "insert", "contains", "binary_search", "fold", "try_fold") for n in names_)
+        if (not has_sort or not has_dedup) and not other_canon and rec is not None and len(local_) <= 2:
+            # the list reaches the description as given: nothing else in the function could canonicalise it
+            res.add("C17.CANON", 1, [Finding("C17.CANON", BASE, "the list of kinds is %s before it is described: the phrase depends on %s" % (
+                "not sorted" if not has_sort else "not deduplicated", "the order of the list" if not has_sort else "the multiplicity of its elements"), main.span)])
+            return res
     if not all((main, order, single, rec)):
-        res.add("C17.CANON", 1, [Finding("C17.CANON", BASE, "value_kinds_description_json or one of its helpers was not found", "")])
+        res.add("C17.CANON", 1, [Finding("C17.CANON", BASE, "value_kinds_description_json is not built from (rank function, single-name table, recursive description): structure not recognised (undecided)", "", undecided=True)])
         return res
     # ---- CANON
     v = View(main)
     fs = []
     calls = [(bb, c) for bb, c in v.calls() if c.fn is not None]
-    names = [call_name(v, ("call", bb)) for bb, c in calls]
-    # every use of the parameter
+    COPIES = ("std::borrow::ToOwned::to_owned", "std::slice::to_vec", "std::convert::From::from", "std::convert::Into::into", "std::clone::Clone::clone",
+              "std::iter::Iterator::collect", "std::vec::Vec::from")
+    READERS = ("core::slice::is_empty", "core::slice::len", "std::slice::is_empty", "std::slice::len", "core::slice::iter", "std::slice::iter",
+               "std::iter::Iterator::copied", "std::iter::Iterator::cloned", "std::iter::IntoIterator::into_iter")
+
+    def is_param(term):
+        x = strip_refs(canon(v, term))
+        while x[0] == "call" and call_name(v, x) in ("core::slice::iter", "std::slice::iter", "std::iter::Iterator::copied", "std::iter::Iterator::cloned",
+                                                     "std::iter::IntoIterator::into_iter") and x[3]:
+            x = strip_refs(x[3][0])
+        return x == ("param", 1)
+    # every use of the parameter: read-only slice functions and exactly one copy
     uses_param = []
     for bb, c in calls:
-        t = v.blocks[bb]["term"]
-        for a in t["args"]:
+        for a in v.blocks[bb]["term"]["args"]:
             if strip_refs(canon(v, v.origin(a))) == ("param", 1):
-                uses_param.append(call_name(v, ("call", bb)))
-    if uses_param != ["std::borrow::ToOwned::to_owned"]:
-        fs.append(fnd("C17.CANON", v, "the list of kinds is used by %s (expected only the copy that is then sorted and deduplicated)" % uses_param))
-    own = [bb for bb, c in calls if call_name(v, ("call", bb)) == "std::borrow::ToOwned::to_owned" and strip_refs(canon(v, v.origin(v.blocks[bb]["term"]["args"][0]))) == ("param", 1)]
-    sorts = [bb for bb, c in calls if c.name in ("sort_by_key", "sort", "sort_unstable", "sort_unstable_by_key", "sort_by", "sort_by_cached_key")]
+                uses_param.append((bb, call_name(v, ("call", bb))))
+    own = [bb for bb, c in calls if call_name(v, ("call", bb)) in COPIES and v.blocks[bb]["term"]["args"] and is_param(v.origin(v.blocks[bb]["term"]["args"][0]))
+           and "Vec<" in v.b.ltys(v.blocks[bb]["term"]["dest"]["l"])]
+    bad_uses = [nm for bb, nm in uses_param if nm not in READERS and nm not in COPIES]
+    if bad_uses:
+        fs.append(fnd("C17.CANON", v, "the list of kinds is handed to %s before it is sorted and deduplicated" % sorted(set(bad_uses))))
+    sorts = [bb for bb, c in calls if c.name in ("sort_by_key", "sort", "sort_unstable", "sort_unstable_by_key", "sort_by", "sort_by_cached_key", "sort_unstable_by")]
     dedups = [bb for bb, c in calls if c.name in ("dedup", "dedup_by_key", "dedup_by")]
     recs = [bb for bb, c in calls if c.path == rec.path]
     if len(own) != 1 or len(sorts) != 1 or len(dedups) != 1 or len(recs) != 1:
-        fs.append(fnd("C17.CANON", v, "expected copy -> sort_by_key(order) -> dedup -> description_rec (found %d/%d/%d/%d)" % (len(own), len(sorts), len(dedups), len(recs))))
+        f_ = fnd("C17.CANON", v, "expected one copy of the list that is sorted, deduplicated and described (found %d copies / %d sorts / %d dedups / %d descriptions): canonicalisation not recognised (undecided)" % (len(own), len(sorts), len(dedups), len(recs)))
+        f_.undecided = not (len(sorts) == 0 or len(dedups) == 0)   # no sort / no dedup at all is a verdict: order or multiplicity shows
+        if not f_.undecided:
+            f_.what = "the list of kinds is %s before it is described: the phrase depends on %s" % (
+                "not sorted" if not sorts else "not deduplicated", "the order of the list" if not sorts else "the multiplicity of its elements")
+        fs.append(f_)
     else:
         o, s, d, r = own[0], sorts[0], dedups[0], recs[0]
         copy_local = v.blocks[o]["term"]["dest"]["l"]
@@ -121,11 +174,16 @@ def run(ctx):
                 t = strip_refs(t[3][0])
             return t == ("call", o, t[2], t[3]) if t[0] == "call" else t == ("multi", copy_local)
         cs = v.callee(s)
-        if cs.name != "sort_by_key" or not on_copy(s):
-            fs.append(fnd("C17.CANON", v, "the copy is not sorted with sort_by_key", s))
+        if cs.name not in ("sort_by_key", "sort_unstable_by_key", "sort_by_cached_key") or not on_copy(s):
+            # (with an injective key the unstable sorts give the same result: equal keys mean equal kinds)
+            f_ = fnd("C17.CANON", v, "the copy is not sorted by a key function (%s): order not decided (undecided)" % cs.name, s)
+            f_.undecided = on_copy(s)
+            if not f_.undecided:
+                f_.what = "what is sorted is not the copy of the list"
+            fs.append(f_)
         else:
-            key = v.origin(v.blocks[s]["term"]["args"][1])
-            if not (key[0] == "fnconst" and key[1] == order.path):
+            key = strip_refs(v.origin(v.blocks[s]["term"]["args"][1]))
+            if not ((key[0] == "fnconst" and order is not None and key[1] == order.path) or (key[0] == "agg" and key[1] == "closure" and order is not None)):
                 fs.append(fnd("C17.CANON", v, "the sort key is not the rank function `order`", s))
         if v.callee(d).name != "dedup" or not on_copy(d):
             fs.append(fnd("C17.CANON", v, "the sorted copy is not deduplicated with dedup()", d))
@@ -139,31 +197,71 @@ def run(ctx):
             nm = call_name(v, ("call", bb))
             if bb not in (s, d) and nm not in ("std::ops::DerefMut::deref_mut",):
                 fs.append(fnd("C17.CANON", v, "the canonical list is modified by %s" % nm, bb))
-        # empty => fallback constant
-        ie = [bb for bb, c in calls if c.name == "is_empty"]
+        # empty => fallback constant: tested on the list itself (before or after the copy)
         okf = False
-        if len(ie) == 1 and on_copy(ie[0]) and v.dominates(d, ie[0]):
-            info = v.switch_info(v.blocks[ie[0]]["term"]["target"])
-            tt = v.edge_target(info, True) if info and info["kind"] == "bool" else None
-            ft = v.edge_target(info, False) if info and info["kind"] == "bool" else None
-            if tt is not None and ft is not None:
-                reg = v.reachable(tt) - v.reachable(ft)
-                for x in reg:
-                    if v.blocks[x]["term"]["k"] == "call" and v.blocks[x]["term"]["dest"]["l"] == 0:
-                        tm = canon(v, v.origin_call(x))
+        seen_test = False
+        for bb in sorted(v.reach):
+            info = v.switch_info(bb)
+            if not info:
+                continue
+            tt = ft = None
+            if info["kind"] == "bool":
+                dt = strip_refs(canon(v, v.origin(v.blocks[bb]["term"]["discr"])))
+                neg = False
+                while dt[0] == "unop" and dt[1] == "Not":
+                    dt = strip_refs(dt[2])
+                    neg = not neg
+                subj = None
+                if dt[0] == "call" and v.callee(dt[1]).fn is not None and v.callee(dt[1]).name == "is_empty" and dt[3]:
+                    subj = dt[3][0]
+                elif dt[0] == "binop" and dt[1] in ("Eq", "Ne") and strip_refs(dt[3]) == ("const", "int", 0):
+                    a = strip_refs(dt[2])
+                    if a[0] == "call" and v.callee(a[1]).fn is not None and v.callee(a[1]).name == "len" and a[3]:
+                        subj = a[3][0]
+                    elif a[0] == "unop" and a[1] == "PtrMetadata":
+                        subj = a[2]
+                    if dt[1] == "Ne":
+                        neg = not neg
+                if subj is None:
+                    continue
+                sj = strip_refs(canon(v, subj))
+                while sj[0] == "call" and call_name(v, sj) in ("std::ops::Deref::deref", "std::vec::Vec::as_slice", "std::ops::DerefMut::deref_mut") and sj[3]:
+                    sj = strip_refs(sj[3][0])
+                if not (sj == ("param", 1) or sj == ("multi", copy_local) or (sj[0] == "call" and sj[1] == o)):
+                    continue
+                tt, ft = v.edge_target(info, not neg), v.edge_target(info, neg)
+            if tt is None or ft is None:
+                continue
+            seen_test = True
+            reg = v.reachable(tt) - v.reachable(ft)
+            for x in reg:
+                blk = v.blocks[x]
+                if blk["term"]["k"] == "call" and blk["term"]["dest"]["l"] == 0:
+                    tm = canon(v, v.origin_call(x))
+                    if term_mentions(tm, lambda y: y[0] == "const" and y[1] == "str" and y[2] == "a different value"):
+                        okf = True
+                for st in blk["stmts"]:
+                    if st["k"] == "assign" and st["place"]["l"] == 0 and not st["place"]["p"]:
+                        tm = canon(v, v.origin_rv(st["rv"], x))
                         if term_mentions(tm, lambda y: y[0] == "const" and y[1] == "str" and y[2] == "a different value"):
                             okf = True
-                if not v.dominates(ft, r):
-                    okf = False
+            if r in reg or not (r in v.reachable(ft)):
+                okf = False
         if not okf:
-            fs.append(fnd("C17.CANON", v, "the empty list does not give the generic fallback (and only the empty list)"))
+            f_ = fnd("C17.CANON", v, "the empty list does not give the generic fallback (and only the empty list)")
+            if not seen_test:
+                f_.what = "no emptiness test of the list found: fallback clause not decided (undecided)"
+                f_.undecided = True
+            fs.append(f_)
     res.add("C17.CANON", 8, fs)
     # order: injective rank
     ov = View(order)
     tab = variant_const_table(ov)
     fs = []
     if tab is None or any(tab.get(k) is None or tab[k][0] != "const" for k in KINDS):
-        fs.append(fnd("C17.CANON", ov, "cannot read the rank table of `order`"))
+        f_ = fnd("C17.CANON", ov, "cannot read the rank table of `order` (undecided)")
+        f_.undecided = True
+        fs.append(f_)
     else:
         ranks = [tab[k][2] for k in KINDS]
         if len(set(ranks)) != len(KINDS):
@@ -175,7 +273,9 @@ def run(ctx):
     tab = variant_const_table(sv)
     fs = []
     if tab is None or any(tab.get(k) is None or tab[k][0] != "const" for k in KINDS):
-        fs.append(fnd("C17.NAMES", sv, "cannot read the table of single_description"))
+        f_ = fnd("C17.NAMES", sv, "cannot read the table of single_description (undecided)")
+        f_.undecided = True
+        fs.append(f_)
     else:
         names_ = {k: tab[k][2] for k in KINDS}
         if len(set(names_.values())) != len(KINDS):
@@ -259,6 +359,20 @@ def extract_rec_table(rv, single_path="::single_description"):
     from loc import canon, call_name
     leaves = []
     INF = 99
+    # the list being described: parameter 1 and plain copies of it (the parameter of an expanded helper)
+    SL = {1}
+    grew = True
+    while grew:
+        grew = False
+        for l in range(len(rv.b.locals)):
+            if l in SL:
+                continue
+            wd = rv.whole_defs(l)
+            if len(wd) == 1 and wd[0][0] == "stmt":
+                r0 = wd[0][3]["rv"]
+                if r0["k"] == "use" and r0["op"]["k"] in ("copy", "move") and not r0["op"]["place"]["p"] and r0["op"]["place"]["l"] in SL:
+                    SL.add(l)
+                    grew = True
 
     def walk(bb, lo, hi, elems, depth, env=None):
         if lo > hi or depth > 80:
@@ -269,7 +383,7 @@ def extract_rec_table(rv, single_path="::single_description"):
         for st in blk["stmts"]:
             if st["k"] == "assign" and not st["place"]["p"]:
                 r0 = st["rv"]
-                if r0["k"] == "ref" and r0["place"]["l"] == 1 and len(r0["place"]["p"]) == 2 and r0["place"]["p"][1]["k"] == "subslice":
+                if r0["k"] == "ref" and r0["place"]["l"] in SL and len(r0["place"]["p"]) == 2 and r0["place"]["p"][1]["k"] == "subslice":
                     e = r0["place"]["p"][1]
                     if e["from_end"] and e["to"] == 0:
                         env[st["place"]["l"]] = e["from"]
@@ -283,13 +397,17 @@ def extract_rec_table(rv, single_path="::single_description"):
                 m = canon(rv, rv.origin(st["rv"]["ops"][0]))
                 r = strip_refs(canon(rv, rv.origin(st["rv"]["ops"][1])))
                 msg = None
+                m = strip_refs(m)
                 if m[0] == "call" and call_name(rv, m) == "std::string::String::new":
                     msg = ("const", "")
-                elif m[0] == "call" and (call_name(rv, m) or "").endswith("to_owned") and m[3]:
-                    a = strip_refs(m[3][0])
-                    if a[0] == "const":
+                else:
+                    a = m
+                    # an owned copy of a constant / of the single name, or the &'static str itself
+                    if a[0] == "call" and (call_name(rv, a) or "").split("::")[-1] in ("to_owned", "to_string", "from", "into") and a[3]:
+                        a = strip_refs(a[3][0])
+                    if a[0] == "const" and a[1] == "str":
                         msg = ("const", a[2])
-                    elif a[0] == "call" and rv.callee(a[1]).path.endswith(single_path):
+                    elif a[0] == "call" and rv.callee(a[1]).path.endswith(single_path) and a[3]:
                         e = strip_refs(a[3][0])
                         if e[0] == "constindex" and not e[3]:
                             msg = ("single", e[2])
@@ -308,7 +426,7 @@ def extract_rec_table(rv, single_path="::single_description"):
             info = rv.switch_info(bb)
             if info["kind"] == "discr" and info["place"] is not None:
                 p = info["place"]["p"]
-                if len(p) == 2 and p[0]["k"] == "deref" and p[1]["k"] == "constindex" and not p[1]["from_end"] and info["place"]["l"] == 1:
+                if len(p) == 2 and p[0]["k"] == "deref" and p[1]["k"] == "constindex" and not p[1]["from_end"] and info["place"]["l"] in SL:
                     i = p[1]["offset"]
                     cur = elems.get(i, set(RANK))
                     used = set()
@@ -376,7 +494,7 @@ def table_rule(ctx, res):
     crate = ctx.libcrate("deserr")
     _order, single, rec = find_helpers(crate, body(crate, BASE))
     if rec is None or single is None:
-        res.add("C17.TABLE", 1, [Finding("C17.TABLE", "description_rec", "not found", "")])
+        res.add("C17.TABLE", 1, [Finding("C17.TABLE", "description_rec", "recursive description not found (undecided)", "", undecided=True)])
         return
     rv = View(rec)
     leaves = extract_rec_table(rv, single.path)
@@ -384,8 +502,19 @@ def table_rule(ctx, res):
     n = 0
     bad = []
     import itertools
+    # canonical lists are sorted by the rank function the code actually uses
+    rank_order = list(RANK)
+    if _order is not None:
+        tab = variant_const_table(View(_order))
+        if tab and all(tab.get(k) is not None and tab[k][0] == "const" for k in KINDS) and len(set(tab[k][2] for k in KINDS)) == len(KINDS):
+            rank_order = sorted(KINDS, key=lambda k: tab[k][2])
+    if not leaves or all(lf["msg"] is None for lf in leaves):
+        f_ = Finding("C17.TABLE", rec.path, "the slice patterns of one description step were not recognised: merging table not extracted (undecided)", rec.span, undecided=True)
+        res.add("C17.TABLE", 1, [f_])
+        return
+    unknown_rows = 0
     for k in range(0, 9):
-        for combo in itertools.combinations(RANK, k):
+        for combo in itertools.combinations(rank_order, k):
             lst = list(combo)   # canonical: rank order, no duplicates
             n += 1
             hits = []
@@ -399,6 +528,9 @@ def table_rule(ctx, res):
                 bad.append((lst, "matched by %d rows of the extracted table" % len(hits)))
                 continue
             h = hits[0]
+            if h["msg"] is None or h["rest"] is None:
+                unknown_rows += 1
+                continue
             got_rest = h["rest"]
             if got_rest == "all":
                 got_rest = "all" if not lst or len(lst) == 1 else "ALL"
@@ -410,6 +542,8 @@ def table_rule(ctx, res):
                 bad.append((lst, "described by %s consuming %s, the statement prescribes %s consuming %s" % (h["msg"], h["rest"], want_msg, want_rest)))
     for lst, why in bad[:6]:
         fs.append(Finding("C17.TABLE", rec.path, "kind set %s is %s" % (lst, why), rec.span))
+    if unknown_rows:
+        fs.append(Finding("C17.TABLE", rec.path, "%d kind sets reach a step whose phrase / remainder was not recognised: not decided for them (undecided)" % unknown_rows, rec.span, undecided=True))
     res.add("C17.TABLE", n, fs)
     res.samples.append({"description_rec_table": [{"len": (lf["lo"], lf["hi"] if lf["hi"] < 99 else "inf"), "first_elements": {str(i): sorted(s) for i, s in lf["elems"].items() if len(s) < 8},
                                                     "phrase": lf["msg"], "rest_from": lf["rest"]} for lf in leaves][:12]})
@@ -470,7 +604,7 @@ def join_rule(ctx, res):
     _order, single, rec = find_helpers(crate, main)
     rule = "C17.JOIN"
     if main is None or rec is None:
-        res.add(rule, 1, [Finding(rule, BASE, "description_rec not found", "")])
+        res.add(rule, 1, [Finding(rule, BASE, "recursive description not found (undecided)", "", undecided=True)])
         return
     rv = View(rec)
     fs = []
@@ -479,10 +613,13 @@ def join_rule(ctx, res):
     for bb in sorted(rv.reach):
         for st in rv.blocks[bb]["stmts"]:
             if st["k"] == "assign" and st["rv"]["k"] == "agg" and st["rv"]["ak"] == "tuple" and len(st["rv"]["ops"]) == 2 and not st["place"]["p"]:
-                if rv.b.ltys(st["place"]["l"]).startswith("(std::string::String"):
+                tys_ = rv.b.ltys(st["place"]["l"])
+                if tys_.startswith("(") and "ValueKind]" in tys_ and ("String" in tys_.split(",")[0] or "str" in tys_.split(",")[0]):
                     T = st["place"]["l"]
     if T is None:
-        res.add(rule, 1, [fnd(rule, rv, "cannot find the (phrase, rest) pair of one step: cannot establish the joiner table")])
+        f_ = fnd(rule, rv, "cannot find the (phrase, rest) pair of one step: joiner table not extracted (undecided)")
+        f_.undecided = True
+        res.add(rule, 1, [f_])
         return
     M = R = None
     start = None
@@ -497,7 +634,9 @@ def join_rule(ctx, res):
                     elif pl["p"][0]["i"] == 1:
                         R = st["place"]["l"]
     if M is None or R is None or start is None:
-        res.add(rule, 1, [fnd(rule, rv, "cannot find the phrase / rest bindings: cannot establish the joiner table")])
+        f_ = fnd(rule, rv, "cannot find the phrase / rest bindings: joiner table not extracted (undecided)")
+        f_.undecided = True
+        res.add(rule, 1, [f_])
         return
 
     def is_msg(t):
@@ -520,13 +659,28 @@ def join_rule(ctx, res):
             for cl in classes:
                 results.setdefault((e, cl), []).append(summ)
 
-    def walk(bb, empty, classes, pieces, incr, rec_calls, depth, seen):
+    def walk(bb, empty, classes, pieces, incr, rec_calls, depth, seen, penv=None):
         if depth > 200 or (bb, empty, tuple(sorted(classes))) in seen:
             problems.append("loop in the joiner logic")
             return
         seen = seen | {(bb, empty, tuple(sorted(classes)))}
         blk = rv.blocks[bb]
         pieces = list(pieces)
+        penv = dict(penv or {})
+        # constants / copies bound on this path (`let separator = match .. { .. => ", " }`)
+        for st in blk["stmts"]:
+            if st["k"] == "assign" and not st["place"]["p"]:
+                r0 = st["rv"]
+                if r0["k"] == "use" and r0["op"]["k"] == "const" and "str" in r0["op"]:
+                    penv[st["place"]["l"]] = ("lit", r0["op"]["str"])
+                elif r0["k"] == "use" and r0["op"]["k"] in ("copy", "move") and not r0["op"]["place"]["p"] and r0["op"]["place"]["l"] in penv:
+                    penv[st["place"]["l"]] = penv[r0["op"]["place"]["l"]]
+                elif r0["k"] == "ref" and r0["place"]["l"] in penv and all(e["k"] == "deref" for e in r0["place"]["p"]):
+                    penv[st["place"]["l"]] = penv[r0["place"]["l"]]
+                elif r0["k"] == "use" and r0["op"]["k"] in ("copy", "move") and r0["op"]["place"]["l"] in penv and all(e["k"] == "deref" for e in r0["op"]["place"]["p"]):
+                    penv[st["place"]["l"]] = penv[r0["op"]["place"]["l"]]
+                else:
+                    penv.pop(st["place"]["l"], None)
         for st in blk["stmts"]:
             if st["k"] == "assign" and is_count_place(st["place"]):
                 # (*count) = move tmp.0 where tmp = AddWithOverflow(copy *count, const 1)   |  (*count) = Add(..)
@@ -551,29 +705,40 @@ def join_rule(ctx, res):
             return
         if t["k"] == "switch":
             info = rv.switch_info(bb)
-            src = info.get("src")
-            if info["kind"] == "bool" and src is not None and src["k"] == "callresult":
-                cb = src["bb"]
-                c = rv.callee(cb)
-                if c.fn is not None and c.name == "is_empty" and is_rest(canon(rv, rv.origin(rv.blocks[cb]["term"]["args"][0]))):
+            if info["kind"] == "bool":
+                dt = strip_refs(canon(rv, rv.origin(t["discr"])))
+                neg = False
+                while dt[0] == "unop" and dt[1] == "Not":
+                    dt = strip_refs(dt[2])
+                    neg = not neg
+                if dt[0] == "call" and rv.callee(dt[1]).fn is not None and rv.callee(dt[1]).name == "is_empty" and dt[3] and is_rest(dt[3][0]):
                     for val in (True, False):
                         if empty is None or empty == val:
-                            walk(rv.edge_target(info, val), val, classes, pieces, incr, rec_calls, depth + 1, seen)
+                            walk(rv.edge_target(info, val != neg), val, classes, pieces, incr, rec_calls, depth + 1, seen, penv)
                     return
-            if info["kind"] == "bool" and src is not None and src["k"] == "binop" and src["op"] in ("Eq", "Ne", "Lt", "Le", "Gt", "Ge"):
-                a = strip_refs(canon(rv, rv.origin(src["a"])))
-                b2 = strip_refs(canon(rv, rv.origin(src["b"])))
-                if (a == ("param", 2) or (a[0] == "deref" and strip_refs(a[1]) == ("param", 2))) and b2[0] == "const" and isinstance(b2[2], int):
-                    sp = _class_split(src["op"], b2[2], classes)
-                    if sp is None:
-                        problems.append("the joiner depends on the item counter beyond 0 / 1 / more (compared with %s)" % b2[2])
+                if dt[0] == "binop" and dt[1] in ("Eq", "Ne", "Lt", "Le", "Gt", "Ge"):
+                    a = strip_refs(dt[2])
+                    b2 = strip_refs(dt[3])
+                    if (a == ("param", 2) or (a[0] == "deref" and strip_refs(a[1]) == ("param", 2))) and b2[0] == "const" and isinstance(b2[2], int):
+                        sp = _class_split(dt[1], b2[2], classes)
+                        if sp is None:
+                            problems.append("the joiner depends on the item counter beyond 0 / 1 / more (compared with %s)" % b2[2])
+                            return
+                        tcs, fcs = sp
+                        if neg:
+                            tcs, fcs = fcs, tcs
+                        if tcs:
+                            walk(rv.edge_target(info, True), empty, tcs, pieces, incr, rec_calls, depth + 1, seen, penv)
+                        if fcs:
+                            walk(rv.edge_target(info, False), empty, fcs, pieces, incr, rec_calls, depth + 1, seen, penv)
                         return
-                    tcs, fcs = sp
-                    if tcs:
-                        walk(rv.edge_target(info, True), empty, tcs, pieces, incr, rec_calls, depth + 1, seen)
-                    if fcs:
-                        walk(rv.edge_target(info, False), empty, fcs, pieces, incr, rec_calls, depth + 1, seen)
-                    return
+                    # `rest.len() == 0`
+                    if a[0] in ("call", "unop") and b2 == ("const", "int", 0) and dt[1] in ("Eq", "Ne") and \
+                            ((a[0] == "unop" and a[1] == "PtrMetadata" and is_rest(a[2])) or (a[0] == "call" and rv.callee(a[1]).name == "len" and a[3] and is_rest(a[3][0]))):
+                        for val in (True, False):
+                            if empty is None or empty == val:
+                                walk(rv.edge_target(info, (val if dt[1] == "Eq" else not val) != neg), val, classes, pieces, incr, rec_calls, depth + 1, seen, penv)
+                        return
             if info["kind"] == "int" and t["discr"]["k"] in ("copy", "move"):
                 dt = strip_refs(canon(rv, rv.origin(t["discr"])))
                 if dt == ("param", 2) or (dt[0] == "deref" and strip_refs(dt[1]) == ("param", 2)):
@@ -587,9 +752,9 @@ def join_rule(ctx, res):
                             return
                         if cl in left:
                             left.discard(cl)
-                            walk(tgt, empty, {cl}, pieces, incr, rec_calls, depth + 1, seen)
+                            walk(tgt, empty, {cl}, pieces, incr, rec_calls, depth + 1, seen, penv)
                     if left:
-                        walk(t["otherwise"], empty, left, pieces, incr, rec_calls, depth + 1, seen)
+                        walk(t["otherwise"], empty, left, pieces, incr, rec_calls, depth + 1, seen, penv)
                     return
             problems.append("the joiner logic branches on something else than `rest.is_empty()` and the item counter (%s)" % blk["term"].get("at", ""))
             return
@@ -603,6 +768,12 @@ def join_rule(ctx, res):
                 ok = len(args) == 3 and is_rest(canon(rv, rv.origin(args[0])))
                 a1 = strip_refs(canon(rv, rv.origin(args[1])))
                 a2 = strip_refs(canon(rv, rv.origin(args[2])))
+                if a1[0] == "field" and a1[1][0] == "binop":
+                    a1 = a1[1]
+                if a1[0] == "binop" and a1[1] in ("Add", "AddWithOverflow", "AddUnchecked") and strip_refs(a1[3]) == ("const", "int", 1) and \
+                        strip_refs(a1[2]) in (("param", 2), ("deref", ("param", 2))):
+                    incr += 1      # the counter is handed on as `count + 1`
+                    a1 = ("param", 2)
                 ok = ok and (a1 == ("param", 2) or (a1[0] == "deref" and strip_refs(a1[1]) == ("param", 2)))
                 ok = ok and (a2 == ("param", 3) or (a2[0] == "deref" and strip_refs(a2[1]) == ("param", 3)))
                 if not ok:
@@ -611,7 +782,14 @@ def join_rule(ctx, res):
             elif on_message and nm in ("std::string::String::push_str", "std::ops::AddAssign::add_assign", "std::string::String::push"):
                 if rec_calls:
                     problems.append("text is appended after the rest of the list was described")
-                ps = strterm.pieces(rv, deep_local(rv, rv.origin(args[1])))
+                a1op = args[1]
+                ps = None
+                if a1op["k"] in ("copy", "move") and a1op["place"]["l"] in penv and all(e["k"] == "deref" for e in a1op["place"]["p"]):
+                    ps = [penv[a1op["place"]["l"]]]
+                    if ps[0] == ("lit", ""):
+                        ps = []
+                if ps is None:
+                    ps = strterm.pieces(rv, deep_local(rv, rv.origin(args[1])))
                 if ps is None:
                     problems.append("cannot read what is appended to the message at %s" % t.get("at", ""))
                     ps = [("val", ("?",))]
@@ -625,10 +803,10 @@ def join_rule(ctx, res):
             nxt = t.get("target")
             if nxt is None:
                 return
-            walk(nxt, empty, classes, pieces, incr, rec_calls, depth + 1, seen)
+            walk(nxt, empty, classes, pieces, incr, rec_calls, depth + 1, seen, penv)
             return
         for s in rv.succ[bb]:
-            walk(s, empty, classes, pieces, incr, rec_calls, depth + 1, seen)
+            walk(s, empty, classes, pieces, incr, rec_calls, depth + 1, seen, penv)
 
     walk(start, None, set(CLASSES), [], 0, 0, 0, frozenset())
     for p in sorted(set(problems))[:4]:
